@@ -4,7 +4,7 @@
 
 use crate::core::*;
 use crate::rng::{Fnv, Rng};
-use crate::sched::{run_under, trace_hash, ExecReport, SchedSpec};
+use crate::sched::{trace_hash, ExecReport, SchedSpec};
 use ohsl::verif_seam;
 use ohsl::Vector;
 use serde_json::{json, Value};
@@ -29,6 +29,14 @@ pub struct Case {
     /// history before the calls under test: a product of two other vectors of this length on the
     /// same thread (0 = none). The routine must not remember anything between calls.
     pub decoy_len: usize,
+    /// fault: thread creation through `std::thread::Builder` is refused (EAGAIN) from this spawn on
+    /// (None = never). The shipped code spawns through `Scope::spawn`, which cannot report failure, so
+    /// on it the fault never fires; code that does use `Builder` may refuse loudly (panic) or cope,
+    /// but must not return a wrong value.
+    pub refuse_spawns_from: Option<usize>,
+    /// a second caller: another task of the same execution computes another product (its own
+    /// vectors) while the calls under test run; both must be right under every interleaving
+    pub concurrent: bool,
     /// after the calls under test, change one element of v IN PLACE (same buffers, same length)
     /// and multiply again: the answer must follow the data
     pub mutate: bool,
@@ -227,15 +235,33 @@ struct ExecOut {
     mutated: Option<(f64, f64)>,
     /// v.dot_f64(&v): the same object as receiver and argument
     self_dot: f64,
+    /// result of the concurrent second caller and what it should be
+    other_caller: Option<(f64, f64)>,
+    /// thread creation was refused and the call refused loudly (panicked): nothing else to check
+    refused_loudly: bool,
+    spawns_refused: usize,
 }
 
 fn execute_raw(case: &Case) -> (Vec<ExecReport>, Vec<ExecOut>) {
     let outs: Arc<Mutex<Vec<ExecOut>>> = Arc::new(Mutex::new(vec![ExecOut::default(); case.scheds.len()]));
+    let refused: Arc<Mutex<Vec<usize>>> = Arc::new(Mutex::new(vec![0; case.scheds.len()]));
+    let r2 = refused.clone();
     let c = Arc::new(case.clone());
     let o2 = outs.clone();
-    let reports = run_under(&case.scheds, move |idx| {
+    // runs on the server thread after every execution, also one that died: how many spawns were refused
+    let after: crate::sched::Body = Arc::new(move |idx: usize| {
+        let n = verif_seam::thread::spawns_refused();
+        verif_seam::thread::refuse_spawns_from(None);
+        verif_seam::num_cpus::set_override(None);
+        if let Ok(mut v) = r2.lock() {
+            v[idx] = n;
+        }
+    });
+    let reports = crate::sched::run_under_with(&case.scheds, move |idx| {
         verif_seam::num_cpus::set_override(Some(c.cpus));
+        verif_seam::thread::refuse_spawns_from(c.refuse_spawns_from);
         let q0 = verif_seam::num_cpus::calls();
+        let out = {
         if c.decoy_len > 0 {
             // the earlier product ran under a larger CPU count (the affinity shrank since)
             verif_seam::num_cpus::set_override(Some(c.cpus + 1 + c.decoy_len % 5));
@@ -244,6 +270,20 @@ fn execute_raw(case: &Case) -> (Vec<ExecReport>, Vec<ExecOut>) {
             let _ = a.dot_f64(&b);
             verif_seam::num_cpus::set_override(Some(c.cpus));
         }
+        let other = if c.concurrent {
+            let n2 = c.v.len() + 3;
+            let want: f64 = (0..n2).map(|i| ((i % 11) as f64 + 1.0) * ((i % 5) as f64 - 2.0)).sum();
+            Some((
+                shuttle::thread::spawn(move || {
+                    let a = Vector::<f64>::create((0..n2).map(|i| (i % 11) as f64 + 1.0).collect());
+                    let b = Vector::<f64>::create((0..n2).map(|i| (i % 5) as f64 - 2.0).collect());
+                    (a.dot_f64(&b), a.dot_f64(&b))
+                }),
+                want,
+            ))
+        } else {
+            None
+        };
         let mut v = Vector::<f64>::create(c.v.clone());
         let w = Vector::<f64>::create(c.w.clone());
         let r1 = v.dot_f64(&w);
@@ -268,13 +308,28 @@ fn execute_raw(case: &Case) -> (Vec<ExecReport>, Vec<ExecOut>) {
         } else {
             None
         };
+        let other_caller = other.map(|(h, want)| {
+            let (x1, x2) = h.join().expect("second caller panicked");
+            (if x1.to_bits() == x2.to_bits() { x1 } else { f64::NAN }, want)
+        });
         let q1 = verif_seam::num_cpus::calls();
+        ExecOut { done: true, r1, r2, probes, seq, operands_intact: intact, cpu_queries: q1 - q0, mutated, self_dot, other_caller, refused_loudly: false, spawns_refused: verif_seam::thread::spawns_refused() }
+        };
         verif_seam::num_cpus::set_override(None);
         let mut o = o2.lock().unwrap();
-        o[idx] = ExecOut { done: true, r1, r2, probes, seq, operands_intact: intact, cpu_queries: q1 - q0, mutated, self_dot };
-    });
+        o[idx] = out;
+    }, Some(after));
     verif_seam::num_cpus::set_override(None);
-    let outs = outs.lock().unwrap().clone();
+    let mut outs = outs.lock().unwrap().clone();
+    let mut reports = reports;
+    let refused = refused.lock().unwrap().clone();
+    for k in 0..outs.len() {
+        // an injected spawn failure answered by a panic is a loud refusal (like a failed write), not a violation
+        if reports[k].panic.is_some() && refused[k] > 0 {
+            reports[k].panic = None;
+            outs[k] = ExecOut { done: true, refused_loudly: true, spawns_refused: refused[k], ..Default::default() };
+        }
+    }
     (reports, outs)
 }
 
@@ -340,12 +395,14 @@ impl Prop for C16 {
             Tier::Thorough => 8,
         };
         // every call spawns `cpus` tasks; ids grow over the calls of one execution
-        let max_tasks = cpus * (5 + probes.len());
+        let max_tasks = cpus * (7 + probes.len()) + 1;
         let scheds = (0..k).map(|_| SchedSpec::draw(&mut srng, max_tasks)).collect();
         let mut hrng = rng.fork(4);
         let decoy_len = if hrng.chance(0.35) { len + hrng.urange(1, 3 * cpus + 2) } else { 0 };
         let mutate = hrng.chance(0.35);
-        Case { cpus, kind, v, w, probes, decoy_len, mutate, scheds }
+        let concurrent = hrng.chance(0.2);
+        let refuse_spawns_from = if hrng.chance(0.1) { Some(hrng.usize_below(3 * cpus + 1)) } else { None };
+        Case { cpus, kind, v, w, probes, decoy_len, mutate, concurrent, refuse_spawns_from, scheds }
     }
 
     fn execute(&self, case: &Case, stats: &mut Stats) -> Verdict {
@@ -435,6 +492,13 @@ impl Prop for C16 {
         let bound = gamma * sabs + f64::MIN_POSITIVE;
 
         for (k, o) in outs.iter().enumerate() {
+            if o.spawns_refused > 0 {
+                stats.add("fault.thread_spawn_refused", o.spawns_refused as u64);
+            }
+            if o.refused_loudly {
+                stats.count("outcome.refused_loudly_after_spawn_failure");
+                continue;
+            }
             stats.log.f64(o.r1);
             stats.log.f64(o.r2);
             // oracle (d): operands intact
@@ -502,6 +566,13 @@ impl Prop for C16 {
                     );
                 }
             }
+            // a concurrent second caller must not disturb, nor be disturbed
+            if let Some((got, want)) = o.other_caller {
+                stats.count("probe.concurrent_second_caller");
+                if got.to_bits() != want.to_bits() {
+                    return violation("value-mismatch", "dot_f64:concurrent-callers", format!("len={len} cpus={cpus} schedule#{k}: a second task computing another product at the same time got {:e} (or two different values), expected {:e}", got, want));
+                }
+            }
             // the same object as receiver and argument
             {
                 stats.log.f64(o.self_dot);
@@ -551,15 +622,17 @@ impl Prop for C16 {
             }
         }
         // oracle (b2): identical across schedules
-        for k in 1..outs.len() {
-            if canon(outs[k].r1) != canon(outs[0].r1) {
+        let firm: Vec<usize> = (0..outs.len()).filter(|k| !outs[*k].refused_loudly).collect();
+        for &k in firm.iter().skip(1) {
+            let k0 = firm[0];
+            if canon(outs[k].r1) != canon(outs[k0].r1) {
                 return violation(
                     "schedule-dependence",
                     "dot_f64:across-schedules",
                     format!(
-                        "len={len} cpus={cpus}: schedule#0 ({}) gave {:016x}, schedule#{k} ({}) gave {:016x}",
-                        case.scheds[0].policy_name(),
-                        outs[0].r1.to_bits(),
+                        "len={len} cpus={cpus}: schedule#{k0} ({}) gave {:016x}, schedule#{k} ({}) gave {:016x}",
+                        case.scheds[k0].policy_name(),
+                        outs[k0].r1.to_bits(),
                         case.scheds[k].policy_name(),
                         outs[k].r1.to_bits()
                     ),
@@ -602,6 +675,21 @@ impl Prop for C16 {
             let mut c = case.clone();
             c.mutate = false;
             out.push(c);
+        }
+        if case.concurrent {
+            let mut c = case.clone();
+            c.concurrent = false;
+            out.push(c);
+        }
+        if let Some(k) = case.refuse_spawns_from {
+            let mut c = case.clone();
+            c.refuse_spawns_from = None;
+            out.push(c);
+            if k > 0 {
+                let mut c = case.clone();
+                c.refuse_spawns_from = Some(0);
+                out.push(c);
+            }
         }
         // fewer schedules
         if case.scheds.len() > 1 {
@@ -687,6 +775,8 @@ impl Prop for C16 {
             "basis_probes": case.probes,
             "history_decoy_product_len": case.decoy_len,
             "then_change_v_in_place_and_repeat": case.mutate,
+            "second_concurrent_caller": case.concurrent,
+            "fault_refuse_builder_spawns_from": case.refuse_spawns_from,
             "schedules": case.scheds.iter().map(|s| s.to_json()).collect::<Vec<_>>(),
         })
     }
@@ -700,6 +790,8 @@ impl Prop for C16 {
             probes: v["basis_probes"].as_array().map(|a| a.iter().map(usize_of).collect()).unwrap_or_default(),
             decoy_len: v["history_decoy_product_len"].as_u64().unwrap_or(0) as usize,
             mutate: v["then_change_v_in_place_and_repeat"].as_bool().unwrap_or(false),
+            concurrent: v["second_concurrent_caller"].as_bool().unwrap_or(false),
+            refuse_spawns_from: v["fault_refuse_builder_spawns_from"].as_u64().map(|x| x as usize),
             scheds: v["schedules"].as_array().map(|a| a.iter().map(SchedSpec::from_json).collect()).unwrap_or_default(),
         }
     }
@@ -715,12 +807,12 @@ impl Prop for C16 {
             ],
             real_components: vec!["ohsl::Vector::<f64>::dot_f64 (partition, slices, worker closures, join loop, reduction)".into(), "ohsl::Vector::dot".into()],
             stub_components: vec!["std::thread::{scope,spawn,join} -> shuttle runtime + our scheduler".into(), "num_cpus::get -> per-run override".into()],
-            fault_kinds: vec!["stalled_worker"],
+            fault_kinds: vec!["stalled_worker", "thread_spawn_refused"],
             step_meaning: "ohsl has no clock; simulated_steps counts scheduler decisions (one per context-switch point: spawn, join, task exit)".into(),
         }
     }
 
     fn required_probes(&self, _tier: Tier) -> Vec<&'static str> {
-        vec!["len_lt_w", "len_mod_w_nonzero", "len_zero", "chunk_zero", "last_worker_bigger", "worker_order_ne_spawn_order", "main_blocked_on_join", "history_other_product_before", "in_place_change_checked", "association_set_checked"]
+        vec!["len_lt_w", "len_mod_w_nonzero", "len_zero", "chunk_zero", "last_worker_bigger", "worker_order_ne_spawn_order", "main_blocked_on_join", "history_other_product_before", "in_place_change_checked", "association_set_checked", "concurrent_second_caller"]
     }
 }
